@@ -41,6 +41,10 @@ TRUSTED = [
 
 API_LOADERS = ("iodata.api.load_one", "iodata.api.load_many")
 EXPLANATION += ' (R9) counted record loops (`for i in range(n)` consuming a line per iteration) store row i on every completed iteration (CFG must-pass). (R8) a callee that receives both a line and the iterator is not called after that line was put back (its errors would carry an earlier line number). (R6) LineIterator pairs every consumed line with +1 and every pushed-back line with -1 on `lineno`. R1 also forbids the funnel decorator to change the warning filters around the loader.'
+# --- metadata added for batch 7
+TECHNIQUE += '; who-may-touch rule for the raw file handle; decision-table evaluation of the format selection; message composition evaluated'
+EXPLANATION += " Added: (R10) the text of a LoadError is `message (file:line)` (composition evaluated); R1 also forbids return / break / continue in `finally` and contextlib.suppress in the funnels; R4 covers `for line in lit` loops with push-back; R5 is a 19-row decision table of validate_shape plus the frozen field -> arguments schema (spec/validators.json); (R11) only LineIterator's methods use its `fh` (json.load of the whole document is the one hand-over, by callee); (R12) `_select_format_module` as a decision table on a model registry: a module without the requested feature is never returned, the answer is a module that has it or FileFormatError."
+# --- end metadata batch 7
 
 
 def run(ctx):
